@@ -64,7 +64,9 @@ func applyOp(tr trackerT, plan Plan, op HOp, uid int) error {
 	case opEv:
 		return tr.AuditdEvent(vlib.APIEvent(plan.Sid[op.K], auparse.AUDIT_USER_CMD, strconv.Itoa(plan.Pid[op.K]+10000), ts, seq, "success"))
 	case opCD:
-		return tr.AuditdEvent(vlib.APIEvent(plan.Sid[op.K], auparse.AUDIT_CRED_DISP, strconv.Itoa(plan.Pid[op.K]), ts, seq, "success"))
+		return tr.AuditdEvent(vlib.APIEvent(plan.Sid[op.K], auparse.AUDIT_CRED_DISP, strconv.Itoa(cdPid(plan.Pid[op.K], uid)), ts, seq, "success"))
+	case opUnknown:
+		return tr.AuditdEvent(vlib.APIEvent("9"+strconv.Itoa(90000+op.K), auparse.AUDIT_USER_CMD, "78", ts, seq, "success"))
 	case opClean:
 		cut := procStart.Add(-time.Second)
 		if op.Cut == cutAll {
@@ -210,6 +212,7 @@ func smallPrograms() []cprog {
 	E := func(k int) HOp { return HOp{Kind: opEv, K: k, Typ: "USER_CMD"} }
 	D := func(k int) HOp { return HOp{Kind: opCD, K: k} }
 	CA := HOp{Kind: opClean, Cut: cutAll}
+	U := HOp{Kind: opUnknown, K: 0} // a record of a session nobody knows: goes through the lock, changes nothing
 	CN := HOp{Kind: opClean, Cut: cutNone}
 	return []cprog{
 		{Name: "P1 login || (rec;ev;ev)", Plan: p2, Threads: [][]HOp{{L(0)}, {R(0), E(0), E(0)}}},
@@ -221,6 +224,12 @@ func smallPrograms() []cprog {
 		{Name: "P6 (login;login') || (rec;ev;rec';ev')", Plan: p2, Threads: [][]HOp{{L(0), L(1)}, {R(0), E(0), R(1), E(1)}}},
 		{Name: "P7 login || (rec;ev) || login' || (rec';ev')", Plan: p2, Threads: [][]HOp{{L(0)}, {R(0), E(0)}, {L(1)}, {R(1), E(1)}}},
 		{Name: "P8 login || (rec;ev;cd;ev)", Plan: p2, Threads: [][]HOp{{L(0)}, {R(0), E(0), D(0), E(0)}}},
+		// a cleanup whose effect is the same in every sequential order (login 0 is
+		// parked before the threads start and must be gone afterwards), running
+		// against a busy other session: a cleanup that gives up under contention
+		// shows as session 0 being emitted
+		{Name: "P9 login,login'; (noise;noise;cleanup(all) || rec';ev'x4); rec;ev", Plan: p2, Pre: []HOp{L(0), L(1)}, Threads: [][]HOp{{U, U, CA}, {R(1), E(1), E(1), E(1), E(1)}}, Post: []HOp{R(0), E(0)}},
+		{Name: "P10 rec; (noise;cleanup(all) || login';rec';ev';ev'); login;ev", Plan: p2, Pre: []HOp{R(0)}, Threads: [][]HOp{{U, CA}, {L(1), R(1), E(1), E(1)}}, Post: []HOp{L(0), E(0)}},
 	}
 }
 
@@ -520,6 +529,9 @@ func childC03(args []string) {
 			rec.NoGid = true
 			tr := sessiontracker.NewSessionTracker(rec.Writer(), nil)
 			uids := p.uids()
+			for j, op := range p.Pre {
+				_ = applyOp(tr, p.Plan, op, j)
+			}
 			var wg sync.WaitGroup
 			start := make(chan struct{})
 			errs := make([][]error, len(p.Threads))
@@ -547,6 +559,9 @@ func childC03(args []string) {
 					out.inconclusive("C03 perturb: program did not finish within 30 s: " + why)
 				}
 				return
+			}
+			for j, op := range p.Post {
+				_ = applyOp(tr, p.Plan, op, p.postUID(j))
 			}
 			out.add("perturb_runs", 1)
 			var flat []error
@@ -727,4 +742,14 @@ func checkC03(r *vlib.Run) int {
 	r.Assumptions = []string{"schedule points are the hooked lock sites (GenericSyncMap methods, and any lock site marked with common.VerifLockSite); exhaustiveness is at that granularity and sound only for data-race-free code, which the race detector checks on the executions it sees",
 		"the set of admissible outcomes of a small program is obtained by running the same real code sequentially for every merge of the threads' operation lists"}
 	return r.Finish(execs+stats["perturb_runs"]+stats["wiring_pairs"]/25, distinct.Len(), "steer mode: nine small concurrent programs on one tracker explored exhaustively at lock-acquisition granularity (outcome must be one some sequential order produces; no deadlock), larger programs under seeded random and priority schedules; perturb mode under -race: the same programs free-running with delays at lock sites, Auditd.Read with login and LOGIN record released together, and the -race daemon; distinct = distinct grant sequences / outcomes")
+}
+
+// cdPid: the credential-disposal record that ends a session comes from the
+// session's sshd process or from another process of the session (sudo, su):
+// both are generated.
+func cdPid(sshdPid, n int) int {
+	if n%2 == 1 {
+		return sshdPid + 20000
+	}
+	return sshdPid
 }
